@@ -334,6 +334,9 @@ func (g *Gen) next() *Op {
 		return o
 	case x < 20:
 		o := &Op{Kind: "bind", Svc: pick(rng, svcAtoms), Prov: pick(rng, g.provs()), Owner: pick(rng, ownerAtoms), QoS: uint64(1 + rng.Intn(int(r.cfg.MaxTimeout)))}
+		if g.chance(0.45) {
+			o.QoS = 1 // fast providers are eligible for every timeout: more multi-provider batches
+		}
 		if len(s.Defs) > 0 && g.chance(0.9) {
 			var names []string
 			for n := range s.Defs {
@@ -341,6 +344,16 @@ func (g *Gen) next() *Op {
 			}
 			sort.Strings(names)
 			o.Svc = a.atomOfSvc(names[rng.Intn(len(names))])
+			// half of the time add a provider to a service that already has bindings
+			if g.chance(0.5) {
+				var bound []string
+				for _, k := range g.snapBindings() {
+					bound = append(bound, k.Svc)
+				}
+				if len(bound) > 0 {
+					o.Svc = a.atomOfSvc(bound[rng.Intn(len(bound))])
+				}
+			}
 		}
 		if ow, ok := s.Owners[string(a.addr(o.Prov))]; ok && g.chance(0.85) {
 			o.Owner = a.atomOfAddr([]byte(ow))
@@ -478,6 +491,15 @@ func (g *Gen) call(module bool) *Op {
 	switch {
 	case promising:
 		n := availNames[rng.Intn(len(availNames))]
+		// prefer services with several available bindings: multi-provider batches are what the
+		// EndBlocker's grouping, the threshold and co-provider checks are about
+		if g.chance(0.6) {
+			for _, cand := range availNames {
+				if len(availBySvc[cand]) > len(availBySvc[n]) {
+					n = cand
+				}
+			}
+		}
 		o.Svc = a.atomOfSvc(n)
 		pool = availBySvc[n]
 	case len(names) > 0 && o.Svc != 5 && g.chance(0.9):
@@ -497,6 +519,9 @@ func (g *Gen) call(module bool) *Op {
 		}
 	}
 	n := 1 + rng.Intn(3)
+	if len(pool) >= 2 && g.chance(0.5) {
+		n = 2 + rng.Intn(3)
+	}
 	seen := map[int64]bool{}
 	for i := 0; i < n; i++ {
 		var p int64
@@ -514,7 +539,7 @@ func (g *Gen) call(module bool) *Op {
 	if g.chance(0.01) {
 		o.Provs = nil
 	}
-	caps := []int64{1, 2, 10, 1000, 5000}
+	caps := []int64{1, 2, 10, 1000, 5000, 5000, 1000}
 	o.Dep = CoinsArg{Kind: "B", Amt: caps[rng.Intn(len(caps))]}
 	o.Timeout = int64(1 + rng.Intn(int(r.cfg.MaxTimeout)))
 	if o.Timeout > 3 && g.chance(0.7) {
